@@ -161,7 +161,7 @@ def broken_decls(build_out):
 # ------------------------------------------------------------------------------------------------
 # correspondence
 
-def run_impl(harness, prop, cases, rundir, per_case_timeout=None):
+def run_impl(harness, prop, cases, rundir, per_case_timeout=None, deadline=None):
     """Run the real code over all case lines; crash/hang robust.  Returns list of observation lines."""
     outs = []
     casefile = os.path.join(rundir, "cases.txt")
@@ -176,14 +176,20 @@ def run_impl(harness, prop, cases, rundir, per_case_timeout=None):
         with open(casefile) as fin:
             p = subprocess.Popen([harness, "run", prop, str(len(outs))], stdin=fin, stdout=subprocess.PIPE,
                                  stderr=subprocess.PIPE, text=True, env=env)
+            timed_out = False
             try:
-                so, se = p.communicate(timeout=7200)
+                so, se = p.communicate(timeout=7200 if deadline is None else max(5.0, deadline - time.time()))
             except subprocess.TimeoutExpired:
                 p.kill()
                 so, se = p.communicate()
+                timed_out = True
         got = so.split("\n")
         if got and got[-1] == "":
             got.pop()
+        if timed_out and deadline is not None:
+            # search budget exhausted: keep the complete observations received so far, drop the rest of the cases
+            outs.extend(got[: max(0, len(got) - 1)])
+            break
         if p.returncode == 0:
             outs.extend(got)
             break
@@ -486,8 +492,9 @@ def check(prop, tier, seed, replay, rundir, t_start):
         s = seed
         while time.time() < deadline and not new_viol and len(search_info["seeds"]) < 12:
             s += 1000003
-            g2, _ = gen_cases(harness, prop, "thorough", s, rundir)
-            i2 = run_impl(harness, prop, g2, rundir)
+            # cheap seeds of the quick generator first, then the thorough generator while the budget lasts
+            g2, _ = gen_cases(harness, prop, "quick" if len(search_info["seeds"]) < 3 else "thorough", s, rundir)
+            i2 = run_impl(harness, prop, g2, rundir, deadline=deadline + 30)
             m2 = run_model(driver, prop, g2)
             mm = [k for k in range(len(g2)) if i2[k] != m2[k]]
             search_info["seeds"].append(s)
